@@ -162,3 +162,35 @@ macro_rules! contains_add {
 }
 contains_add!(c08_contains_add_sorted, true);
 contains_add!(c08_contains_add_unsorted, false);
+
+// concrete witnesses (NO symbolic input; ordinary tests run through the same tool chain) for the path the symbolic
+// harnesses cannot finish: union into a collection flagged sorted
+macro_rules! union_witness {
+    ($name:ident, $a:expr, $b:expr, $want:expr) => {
+        #[kani::proof]
+        #[kani::unwind(10)]
+        #[kani::stub(std::hash::RandomState::new, rs_new)]
+        #[kani::stub(<[crate::annotation::AnnotationHandle]>::sort_unstable, recording_sort)]
+        fn $name() {
+            let store = AnnotationStore::new(Config::default());
+            let a: &[u8] = &$a;
+            let b: &[u8] = &$b;
+            let want: &[u8] = &$want;
+            let mut ca = mk(a, true, &store);
+            let cb = mk(b, true, &store);
+            unsafe { SORT_CALLED_WITH_LEN = None; }
+            ca.union(&cb);
+            assert!(ca.len() == want.len(), "sorted union holds every member once");
+            let mut i = 0;
+            while i < want.len() { assert!(has(&ca, want[i]) == 1, "member present exactly once"); i += 1; }
+            assert!(is_sorted(&ca) || unsafe { SORT_CALLED_WITH_LEN } == Some(ca.len()), "in order, or handed to sort_unstable in its final form");
+            kani::cover!(true, "reached");
+            core::mem::forget(ca);
+            core::mem::forget(cb);
+            core::mem::forget(store);
+        }
+    };
+}
+union_witness!(c08_witness_union_sorted_overlap, [1, 5], [3, 5], [1, 3, 5]);
+union_witness!(c08_witness_union_sorted_interleaved, [2, 4, 6], [1, 4, 7], [1, 2, 4, 6, 7]);
+union_witness!(c08_witness_union_sorted_subset, [1, 2, 3], [2, 3], [1, 2, 3]);
